@@ -11,6 +11,7 @@ from ..common import lib, viol, ts_of
 from ..obs import obs, fmt
 
 PID = "C14"
+ON_LIBRARY_RAISE = "skip"  # the statement is about values that are produced; a raising parse is C01's finding
 LEVEL = "exploration"
 RULE = (
     "Texts = bundled corpus sentences + all 1-token texts x the full option product (scorer {shipped, constant, random(seed)} x latent {on,off} x max_stack_depth {10,0,1} "
